@@ -132,6 +132,24 @@ def run_prep(c):
             out["dec"] = vec_out(qp.execute([t2], dev)[0])
     except Exception as e:
         out["dec_err"] = f"{type(e).__name__}: {str(e)[:300]}"
+    # (iii) the decomposition rules registered for the graph-based decomposition system (add_decomps)
+    try:
+        qp.decomposition.enable_graph()
+        tape = qp.tape.QuantumScript([op], [qp.state()])
+        (t3,), _ = qp.transforms.decompose(tape, gate_set=GATE_SET)
+        names = sorted({o.name for o in t3.operations})
+        if not set(names) <= GATE_SET:
+            out["gr_err"] = "NotInGateSet: " + ",".join(names)
+        else:
+            extra = [w for w in t3.wires if w not in order]
+            out["gr_order"] = list(order) + [str(w) for w in extra]
+            dev = qp.device("default.qubit", wires=list(order) + extra)
+            out["gr"] = vec_out(qp.execute([t3], dev)[0])
+            out["gr_n_ops"] = len(t3.operations)
+    except Exception as e:
+        out["gr_err"] = f"{type(e).__name__}: {str(e)[:300]}"
+    finally:
+        qp.decomposition.disable_graph()
     return out
 
 
